@@ -509,6 +509,45 @@ func (x *runner) illFormed(t *Ty, rv reflect.Value) {
 	}
 }
 
+// nonWF: struct types OUTSIDE wf_schema (where gohcl panics).  No oracle: only the
+// correspondence model-Panic == Go-panic is checked (CEnc ... None / CDec ... None).
+func (x *runner) nonWF(t *Ty, rv reflect.Value, texts []string, note string, skipEnc bool) {
+	rep := x.rep
+	sp := &Spec{Mode: "nonwf", Schema: t.F, Value: valToSpec(t, rv), Note: note}
+	key := sp.String()
+	rep.Count(key, true)
+	src, p := encodeReal(rv)
+	if skipEnc {
+		rep.Hist("nonwf:encode-not-compared")
+	} else if p != nil {
+		rep.Hist("nonwf:encode-panics")
+		x.addCase(fmt.Sprintf("CEnc %s %s None", coqSchema(t.F), coqSval(t, rv)), "enc:"+key)
+	} else if file, d := hclsyntax.ParseConfig(src, "t.hcl", hcl.InitialPos); !d.HasErrors() {
+		rep.Hist("nonwf:encode-ok")
+		info := &hv.ValInfo{}
+		if items, ok := coqItems(file.Body.(*hclsyntax.Body), 0, info); ok {
+			x.addCase(fmt.Sprintf("CEnc %s %s (Some %s)", coqSchema(t.F), coqSval(t, rv), items), "enc:"+key)
+		}
+	}
+	for _, txt := range texts {
+		file, d := hclsyntax.ParseConfig([]byte(txt), "t.hcl", hcl.InitialPos)
+		if d.HasErrors() {
+			continue
+		}
+		out, diags, p := decodeReal(file.Body, nil, t)
+		if p != nil {
+			rep.Hist("nonwf:decode-panics")
+		} else {
+			rep.Hist("nonwf:decode-ok")
+		}
+		info := &hv.ValInfo{}
+		af, ok := fileOfBody(file.Body.(*hclsyntax.Body))
+		if ok {
+			x.addCase(fmt.Sprintf("CDec %s %s %s", coqSchema(t.F), coqAFile(af, info), coqDecObs(t, out, diags, p)), "dec:"+key+":"+txt)
+		}
+	}
+}
+
 // marked: a marked value reaching DecodeExpression through the EvalContext.
 func (x *runner) markedCase() {
 	t := &Ty{K: TStruct, F: []Field{{Name: "a", Kind: "attr", T: tyString}}}
@@ -578,6 +617,10 @@ func runC16(cfg *hv.RunCfg) error {
 			x.roundtrip(c.t, c.v, c.note)
 		}
 		x.markedCase()
+		for _, c := range nonWFCorpus() {
+			rep.Hist("corpus:non-wf")
+			x.nonWF(c.t, c.v, c.texts, c.note, c.skipEnc)
+		}
 		g := &gen{r: r, feat: map[string]int{}}
 		for i := 0; i < cfg.N; i++ {
 			t := g.structTy(0, true)
